@@ -485,6 +485,18 @@ _dispatch_transform_from_utf16(dispatch_data_t data, int32_t byteOrder)
 							byteOrder);
 					dispatch_release(range);
 					skip += 2;
+				} else if ((i == (max - 1)) && (max > (size / 2))) {
+					// Low surrogate is the split last unit of an odd sized range
+					const void *p;
+					dispatch_data_t range = _dispatch_data_subrange_map(data,
+							&p, offset + (i * 2), 2);
+					if (range == NULL) {
+						return (bool)false;
+					}
+					ch = _dispatch_transform_swap_to_host(*(const uint16_t *)p,
+							byteOrder);
+					dispatch_release(range);
+					skip += 1;
 				} else {
 					ch = _dispatch_transform_swap_to_host(src[i], byteOrder);
 				}
